@@ -381,3 +381,41 @@ def c01(c):
            dict(src='c01_lattice.cpp', build='clang', shards={'quick': 1, 'thorough': 5}, tiers=('thorough',))])
     for k in ('plain_lattices', 'vegas_lattices', 'mc_lattices', 'mc_lattices_exact_integral', 'mc_weights_checked_per_call', 'lattice_points'):
         c.require(k)
+
+
+def _c04_variants(thorough):
+    def v(tn, td, e):
+        return ('%s.%s' % (tn, e), td + ['-DVF_ENG=std::%s' % e, '-DVF_ENG_NAME="%s"' % e])
+    tv = dict((n, d) for n, d in T_VARIANTS)
+    if thorough:
+        return [v(tn, tv[tn], e) for tn in ('float', 'double', 'ldouble') for e in ('mt19937', 'mt19937_64', 'minstd_rand', 'ranlux24', 'ranlux48', 'knuth_b')]
+    return [v('float', tv['float'], 'mt19937'), v('double', tv['double'], 'mt19937'), v('double', tv['double'], 'minstd_rand'),
+            v('double', tv['double'], 'ranlux48'), v('ldouble', tv['ldouble'], 'mt19937_64')]
+
+
+import c04 as _c04
+
+
+@prop('C04',
+      rule="case = one run of mpi_plain / mpi_vegas / mpi_multi_channel (1..4 channels) on the thread MPI shim with world size from {1,2,3,4,7,16,33} "
+           "(thorough 1..33), 1..4 iterations with calls drawn from {0,1,P-1,P,P+1,2P+1,13,97,101,1000}, with or without a distribution, optional "
+           "target precision reached mid-run, engines mt19937/minstd_rand/ranlux48/mt19937_64 (thorough also ranlux24, knuth_b: 1, 2 and 3 raw "
+           "draws per number), seeded rank arrival order and reduction order per collective. For every iteration the serial *_iteration is "
+           "re-run from the generator before it and the state recorded in the result: sorted per-rank point logs == sorted serial log (bitwise "
+           "points, bins, channels, coordinates), counters (also per bin) equal, stored generator equal, sums / adjustment data / bins within "
+           "(N+P+4) eps sum|terms|, identical checkpoint text and collective sequence on all ranks, no logical hang. Same harness under "
+           "ThreadSanitizer. Plus real mpirun launches (OpenMPI, np 2,3,5; thorough more) of a program comparing per-rank point files with a "
+           "serial run. non-trivial = world>=2 and calls%world!=0 or calls<world; distinct = configuration hash, plus every distinct "
+           "(arrival order, reduction order) pair observed.",
+      assumptions=["MPI implementations whose allreduce returns different roundings on different ranks are not modelled (the shim delivers one reduced vector to all ranks)",
+                   "world sizes above 33 are not explored; real mpirun covers np <= 5 (quick) / <= 11 (thorough)",
+                   "hangs are detected logically by the shim (a rank finished while others wait in a collective), never by wall clock"])
+def c04(c):
+    progs = [dict(src='c04_mpi_points.cpp', build='asan', variants=_c04_variants(c.tier == 'thorough'), shards={'quick': 3, 'thorough': 1}, extra_inc=SHIM, libs=['-pthread']),
+             dict(src='c04_mpi_points.cpp', build='tsan', variants=_c04_variants(False)[1:2] if c.tier == 'quick' else _c04_variants(False)[:3],
+                  shards={'quick': 3, 'thorough': 4}, extra_inc=SHIM, libs=['-pthread'])]
+    c.std(progs)
+    _c04.real_mpirun(c)
+    for k in ('iterations_compared', 'points_compared', 'bins_compared', 'collectives_checked', 'runs_mpi_plain', 'runs_mpi_vegas', 'runs_mpi_multi_channel',
+              'runs_stopped_early_by_target', 'real_mpirun_launches'):
+        c.require(k)
